@@ -118,6 +118,9 @@ def main():
             return n
         conf["demo_files_installed"] = install(clean)
         install(mut)
+        for root in (clean, mut):  # demo commands often start with `cp SEEDED/<V>/demo/... <pkg>/`
+            shutil.copytree(demo_dir, os.path.join(root, "SEEDED", var, "demo"), dirs_exist_ok=True)
+            open(os.path.join(root, "SEEDED", "go.mod"), "w").write("module seeded\n\ngo 1.22\n")
         cmd2 = cmd.replace(src, "{ROOT}")
         cmd2 = re.sub(r"cd\s+\{ROOT\}\s*&&", "", cmd2)
         def run_demo(root):
